@@ -262,8 +262,8 @@ def check_source_distribution(dist, u_full, n_real, occ, src):
             return problems
         stats = {k: p / t for k, p in kept.items()}
     ref = srcref.output_distribution(u_full, n_real, stats)
-    n_max = max((sum(sum(g) for g in k) for k in stats), default=0)
-    allow = 1e-9 * boson.n_fock(u_full.shape[0], max(n_max, 1)) * max(1, len(occ)) + 1e-8
+    # allowance: the documented per-state truncation, scaled by the weight of the source configuration it acts on
+    allow = 2 * srcref.output_distribution.last_allowance + 1e-12
     got = {}
     for s, p in dist.items():
         got[tuple(s)] = got.get(tuple(s), 0.0) + p
